@@ -52,7 +52,7 @@ SIGNATURES = {}
 
 FEAT = gen.Feat(items=True, uncached=True, fail=True, max_top=2, max_child=1, max_cells=4, max_rank=5, depth=2,
                 tick=True, shadow=False, objrefs=False)
-KINDS = ["ZeroDivisionError", "KeyError", "ValueError", "HarnessError", "None"]
+KINDS = ["ZeroDivisionError", "KeyError", "ValueError", "HarnessError", "HarnessAbort", "None"]
 
 
 def plan(tier):
@@ -125,7 +125,7 @@ def plans(draw):
     for e in draw(st.permutations(elems)):
         k = int(e[1][1:])
         tag = "F%d_" % k + (str(e[2][0]) if e[2] else "")
-        kind = draw(st.sampled_from(KINDS[:4]))
+        kind = draw(st.sampled_from(KINDS[:5]))
         pre = draw(st.integers(0, 3))
         if pre == 0:
             hist.append(["clear_all_model"])
@@ -353,17 +353,13 @@ def run_case(case):
             return out.fail("self-check", "mxsys._check_sanity() failed after %r: %r" % (op, a), i)
         except Exception:
             pass
-    # everything held is correct (faults disarmed: values never depend on the arming)
-    rm.armed.clear()
+    # everything held equals the value the reference computed when the element acquired it
     for e, v in live_held(real).items():
-        if e[1] is None:
+        if e[1] is None or e not in sim.values:
             continue
-        try:
-            exp = R.evaluate(rm, e[0], e[1], e[2])
-        except R.Budget:
-            continue
-        if exp[0] != "ok" or exp[1] != plain_real(v):
-            return out.fail("held-value", "%r holds %r, reference %r" % (e, v, exp[:2]), len(case["ops"]) - 1)
+        if sim.values[e] != plain_real(v):
+            return out.fail("held-value", "%r holds %r, reference computed %r" % (e, v, sim.values[e]),
+                            len(case["ops"]) - 1)
     out.nontrivial = nt
     if not use_fe:
         out.label("formula_error_off")
